@@ -79,3 +79,19 @@ Proof.
   - destruct stop; unfold process_finished, set_stopped, mark, take, upd; cbn [trace]; intros tr' E; discriminate E.
   - destruct (op_sync (opi p o)); unfold start_sync, start_proc, mark, take, upd; cbn [trace]; intros tr' E; discriminate E.
 Qed.
+
+(* ... and in the model: after a wait for a process the run is stopped exactly when it was stopped before or the translated
+   expression holds of (that process failed, --stop-early) *)
+Lemma wait_stop_tie_model : forall p stop orc s,
+  syncs s = [] ->
+  let k := Nat.modulo (pick orc (waits s)) (length (procs s)) in
+  let o := fst (nth k (procs s) (0, None)) in
+  stopped (wait_one p stop orc s) = gen_wait_stops (negb (N.eqb (rc_of orc o) 0)) stop || stopped s.
+Proof.
+  intros p stop orc s Hs k o. unfold wait_one. rewrite Hs. fold k.
+  destruct (nth k (procs s) (0, None)) as [o' slot] eqn:E. subst o. cbn [fst].
+  unfold gen_wait_stops.
+  destruct (negb (N.eqb (rc_of orc o') 0) && stop) eqn:B.
+  - reflexivity.
+  - unfold process_finished, mark, reap. cbn [stopped]. reflexivity.
+Qed.
